@@ -12,12 +12,12 @@ CORE = "MC_core.tla"
 
 # model-checking configurations: name -> (quick MaxDepth, thorough MaxDepth)
 MC_DEPTH = {
-    "MC_relay": (5, 7), "MC_relayB": (8, 10), "MC_time": (8, 10), "MC_iso": (5, 6), "MC_v6": (6, 7), "MC_mtu": (4, 5), "MC_resv": (5, 6), "MC_stream": (6, 7), "MC_stream2": (6, 7), "MC_veto": (8, 10), "MC_longlife": (6, 7), "MC_quota": (6, 7),
+    "MC_relay": (5, 7), "MC_relayB": (8, 10), "MC_time": (8, 10), "MC_iso": (5, 6), "MC_v6": (6, 7), "MC_mtu": (4, 5), "MC_resv": (5, 6), "MC_stream": (6, 7), "MC_stream2": (6, 7), "MC_stream3": (6, 7), "MC_veto": (8, 10), "MC_longlife": (6, 7), "MC_quota": (6, 7),
 }
 # generation slices: name -> (quick MaxDepth, thorough MaxDepth)
 GEN_DEPTH = {
     "GEN_relayA": (6, 7), "GEN_relayB": (6, 7), "GEN_relayD": (4, 5), "GEN_time": (7, 8), "GEN_users": (5, 6),
-    "GEN_iso": (4, 5), "GEN_v6": (4, 5), "GEN_v6strict": (5, 6), "GEN_mtu": (4, 4), "GEN_mtu1200": (4, 4), "GEN_resv": (4, 5), "GEN_recycle": (7, 8), "GEN_chan3": (8, 9), "GEN_stream": (5, 6), "GEN_stream2": (5, 6), "GEN_veto": (6, 7), "GEN_longlife": (4, 5), "GEN_quota": (5, 6),
+    "GEN_iso": (4, 5), "GEN_v6": (4, 5), "GEN_v6strict": (5, 6), "GEN_mtu": (4, 4), "GEN_mtu1200": (4, 4), "GEN_resv": (4, 5), "GEN_recycle": (7, 8), "GEN_chan3": (8, 9), "GEN_stream": (5, 6), "GEN_stream2": (5, 6), "GEN_stream3": (5, 6), "GEN_veto": (6, 7), "GEN_longlife": (4, 5), "GEN_quota": (5, 6),
 }
 
 
@@ -325,7 +325,7 @@ PROPS = {
                                            "bytes are compared and when, for the credential-defect classes of TurnAuth.tla and the mutation classes of Nonce.tla",
                                            "nonce ages 3601..3659 s are a grey band (implementation granularity) that is never probed"]),
     "C04": dict(title="allocations are isolated by 5-tuple", level="model_checking",
-                run=with_server_trace(core_run(["MC_iso", "MC_relay", "MC_stream", "MC_stream2"], ["GEN_iso", "GEN_relayD", "GEN_v6", "GEN_tcpB", "GEN_relaygenA", "GEN_stream", "GEN_stream2", "GEN_reaper"])),
+                run=with_server_trace(core_run(["MC_iso", "MC_relay", "MC_stream", "MC_stream2", "MC_stream3"], ["GEN_iso", "GEN_relayD", "GEN_v6", "GEN_tcpB", "GEN_relaygenA", "GEN_stream", "GEN_stream2", "GEN_stream3", "GEN_reaper"])),
                 assumptions=BASE_ASSUME),
     "C05": dict(title="payloads intact, exactly once, truthful attribution", level="model_checking",
                 run=c05_run,
